@@ -505,34 +505,6 @@ Definition under (q : path) (r : inst) : bool :=
   is_prefix q (fst (i_key r))
   || existsb (fun e => is_prefix q (i_base r ++ fst e)) (i_snap r).
 
-(** change of an existing reference [x] of [p]: dynamic spaces built from [p]
-    get the new reference in place (change_dynsub_refs); their values go *)
-Definition change_ref_inst (p : path) (x : string) (v : Z) (r : inst) : inst :=
-  match strip_prefix (i_base r) p with
-  | Some cp =>
-      if dmem cp (i_snap r) then
-        {| i_key := i_key r; i_uid := i_uid r; i_base := i_base r;
-           i_snap := dupdate cp (set_ref x v) (i_snap r);
-           i_args := i_args r; i_xrefs := i_xrefs r; i_cache := [] |}
-      else r
-  | None => r
-  end.
-(** ItemSpaces deleted by that change: those of the root (DynamicBase.on_namespace_change)
-    and those of the dynamic space itself (its own namespace changed) *)
-Definition nested_changed (p : path) (l : list inst) (r : inst) : bool :=
-  existsb (fun r0 =>
-    match strip_prefix (i_base r0) p with
-    | Some cp0 =>
-        dmem cp0 (i_snap r0)
-        && path_eqb (fst (i_key r0)) (fst (i_key r))
-        && (isteps_prefix (snd (i_key r0)) (snd (i_key r)))
-        && match skipn (List.length (snd (i_key r0))) (snd (i_key r)) with
-           | (cpx, _) :: _ => path_eqb cpx [] || path_eqb cpx cp0
-           | [] => false
-           end
-    | None => false
-    end) l.
-
 (** ** operations *)
 Inductive op :=
 | OGetItem (par : dref) (pos : list Z) (kw : list (string * Z))   (* S[..] / S(..) / h.C[..] *)
@@ -694,10 +666,6 @@ Definition step (fuel : nat) (st : state) (o : op) : state * out :=
       match dlookup p d with
       | Some n =>
           if amem x (sn_cells n) || dmem (p ++ [x]) d then (st, ORejected)
-          else if amem x (sn_refs n) then
-            let l1 := del_where (own p) l in
-            let l2 := del_where (nested_changed p l1) l1 in
-            (edit st (dupdate p (set_ref x v) d) (map (change_ref_inst p x v) l2), ODone)
           else (edit st (dupdate p (set_ref x v) d)
                      (del_where (fun r => own p r || has_dynsub p r) l), ODone)
       | None => (st, ORejected)
